@@ -89,6 +89,8 @@ PENDING_FINDINGS = [
     # WriteZipFS.write_zip(file, compression=zipfile.ZIP_STORED) on a ZipFS created with the default
     # ZIP_DEFLATED writes deflated members: `compression or self.compression` treats ZIP_STORED (0) as "not given".
     "keywords zip: files are compressed with another method than the requested one [method, host source]",
+    # (the ReadTarFS first-use race found by the threaded first-use rounds was repaired in /repo fa519e7: a violation again
+    #  if it returns)
 ]
 LOCAL_KNOWN = os.path.join(os.path.dirname(os.path.abspath(__file__)), "c15_known_local.json")
 
@@ -1770,6 +1772,333 @@ def shrink_tree(case, sig, workdir, budget=150):
     return out
 
 
+# --------------------------------------------------------------------------- first use by several threads
+# A read-mode archive filesystem builds its index of members on first use.  "Opening the result read-only yields the
+# same tree" holds for every thread that uses the object, also for one whose FIRST call arrives while another thread's
+# first call is still building that index (every FS is documented thread-safe and carries a lock).  For ReadZipFS and
+# ReadTarFS x target {path, BytesIO, open file handle} an archive of several hundred to a few thousand members (explicit
+# directories, directories only implied by member names, nesting, non-ASCII components; written with zipfile / tarfile,
+# so the expectation comes from the member list of the harness alone) is opened afresh per round; N threads are released
+# together, thread k starts k/(N-1) * f * (measured single-thread build time) later (f in 0..1: all together ... spread
+# over one build) and runs a DIFFERENT first query; the interpreter's switch interval is 1 microsecond during that
+# window.  Afterwards every thread (and the main thread) walks the whole tree.
+
+FU_QUERIES = ["listdir-root", "exists-deep", "getinfo-deep", "walk-files", "isdir-implied", "readbytes-deep",
+              "isfile-deep", "listdir-deep-dir", "walk-dirs", "getsize-deep", "scandir-root", "openbin-deep"]
+FU_TARGETS = ["path", "bytesio", "filehandle"]
+FU_THREADS = 6
+FU_RERUNS = 5
+
+
+def fu_signature(fam):
+    return ("first use %s: threads making their first call on a freshly opened Read%sFS together do not all see the "
+            "complete tree" % (fam, fam.capitalize()))
+
+
+def fu_members(rnd, n_members):
+    """([(name, 'f'|'d', data)] in archive order, {file path: bytes}, {directory paths}, [directories that are no
+    member themselves])."""
+    members, files, dirs, implied, explicit = [], {}, set(), set(), set()
+    n_dirs = max(4, n_members // rnd.choice([8, 15, 25]))
+    di = 0
+    while len(members) < n_members:
+        depth = rnd.choice([1, 1, 2, 3])
+        comps = [u"d%03d" % di] + [rnd.choice([u"sub", u"sü", u"x"]) for _ in range(depth - 1)]
+        di += 1
+        d = u"/".join(comps)
+        is_explicit = rnd.random() < 0.4
+        if is_explicit:
+            for k in range(1, len(comps) + 1):
+                p = u"/".join(comps[:k])
+                if p not in explicit:
+                    explicit.add(p)
+                    members.append((p, "d", None))
+        for k in range(1, len(comps) + 1):
+            dirs.add(u"/" + u"/".join(comps[:k]))
+            if u"/".join(comps[:k]) not in explicit:
+                implied.add(u"/" + u"/".join(comps[:k]))
+        for i in range(rnd.randint(0 if is_explicit else 1, 2 * n_members // n_dirs)):
+            name = d + u"/f%03d.bin" % i
+            data = (u"%s#%d" % (d, i)).encode("utf8") * (i % 3)
+            members.append((name, "f", data))
+            files[u"/" + name] = data
+    return members, files, dirs, sorted(implied)
+
+
+def fu_write(fam, members, workdir):
+    buf = io.BytesIO()
+    if fam == "zip":
+        with zipfile.ZipFile(buf, "w") as z:
+            for name, kind, data in members:
+                z.writestr(name + ("/" if kind == "d" else ""), data or b"")
+    else:
+        with tarfile.open(fileobj=buf, mode="w") as t:
+            for name, kind, data in members:
+                ti = tarfile.TarInfo(name)
+                if kind == "d":
+                    ti.type = tarfile.DIRTYPE
+                    t.addfile(ti)
+                else:
+                    ti.size = len(data)
+                    t.addfile(ti, io.BytesIO(data))
+    path = os.path.join(workdir, "firstuse." + fam)
+    with open(path, "wb") as fh:
+        fh.write(buf.getvalue())
+    return path, buf.getvalue()
+
+
+def fu_open(fam, target, path, data):
+    """-> (filesystem, file object to close afterwards or None)"""
+    from fs.zipfs import ReadZipFS
+    from fs.tarfs import ReadTarFS
+    cls = ReadZipFS if fam == "zip" else ReadTarFS
+    if target == "path":
+        return cls(path), None
+    fobj = io.BytesIO(data) if target == "bytesio" else open(path, "rb")
+    return cls(fobj), fobj
+
+
+def fu_query(ro, q, files, dirs, probe):
+    """One query; None or (kind, detail) when the answer differs from the member list."""
+    pfile, pdir, pimp = probe
+
+    def top(d):
+        pre = d.rstrip(u"/") + u"/"
+        return sorted(set(p[len(pre):].split(u"/")[0] for p in list(files) + list(dirs) if p.startswith(pre)))
+    if q == "listdir-root":
+        got, want = sorted(ro.listdir(u"/")), top(u"/")
+    elif q == "exists-deep":
+        got, want = ro.exists(pfile), True
+    elif q == "isfile-deep":
+        got, want = ro.isfile(pfile), True
+    elif q == "getinfo-deep":
+        info = ro.getinfo(pfile, ["details"])
+        got, want = (info.is_dir, info.name, info.size), (False, pfile.rsplit(u"/", 1)[1], len(files[pfile]))
+    elif q == "getsize-deep":
+        got, want = ro.getsize(pfile), len(files[pfile])
+    elif q == "walk-files":
+        got, want = sorted(ro.walk.files()), sorted(files)
+    elif q == "walk-dirs":
+        got, want = sorted(ro.walk.dirs()), sorted(dirs)
+    elif q == "walk-all":
+        got = sorted((p, i.is_dir) for p, i in ro.walk.info())
+        want = sorted([(p, False) for p in files] + [(p, True) for p in dirs])
+    elif q == "isdir-implied":
+        got, want = ro.isdir(pimp), True
+    elif q == "listdir-deep-dir":
+        got, want = sorted(ro.listdir(pdir)), top(pdir)
+    elif q == "scandir-root":
+        got, want = sorted((i.name, i.is_dir) for i in ro.scandir(u"/")), [(n, (u"/" + n) in dirs) for n in top(u"/")]
+    elif q == "readbytes-deep":
+        got, want = ro.readbytes(pfile), files[pfile]
+    elif q == "openbin-deep":
+        with ro.openbin(pfile) as fh:
+            got = fh.read()
+        want = files[pfile]
+    else:
+        raise AssertionError(q)
+    if got != want:
+        if isinstance(want, list):
+            return ("incomplete" if set(got) < set(want) else "wrong",
+                    dict(got_len=len(got), want_len=len(want), missing=[repr(x) for x in sorted(set(want) - set(got))[:3]]))
+        return "wrong", dict(got=repr(got)[:80], want=repr(want)[:80])
+    return None
+
+
+def fu_round(fam, target, path, data, queries, delays, files, dirs, probes):
+    """One fresh object, len(queries) threads; returns the discrepancies."""
+    import threading
+    ro, fobj = fu_open(fam, target, path, data)
+    out = []
+    n = len(queries)
+    release = threading.Barrier(n + 1)
+    firsts = threading.Barrier(n + 1)
+
+    def ask(k, qq):
+        try:
+            r = fu_query(ro, qq, files, dirs, probes[k])
+        except Exception as e:  # noqa
+            r = ("exception", dict(error=common.exc_name(e), message=str(e)[:100]))
+        if r is not None:
+            out.append(dict(thread=k, start_delay=round(delays[k], 5) if k >= 0 else None,
+                            first_query=queries[k] if k >= 0 else "(main thread, after the others finished)",
+                            query=qq, kind=r[0], detail=r[1]))
+
+    def body(k):
+        try:
+            release.wait(30)
+            t_end = time.time() + delays[k]
+            while time.time() < t_end:
+                pass
+            ask(k, queries[k])
+        finally:
+            try:
+                firsts.wait(30)
+            except threading.BrokenBarrierError:
+                pass
+        ask(k, "walk-all")
+    ths = [threading.Thread(target=body, args=(k,)) for k in range(n)]
+    old = sys.getswitchinterval()
+    for t in ths:
+        t.daemon = True
+        t.start()
+    sys.setswitchinterval(1e-6)
+    try:
+        try:
+            release.wait(30)
+            firsts.wait(30)
+        except threading.BrokenBarrierError:
+            pass
+    finally:
+        sys.setswitchinterval(old)
+    for t in ths:
+        t.join(30)
+    if any(t.is_alive() for t in ths):
+        out.append(dict(thread=-1, first_query="*", query="*", kind="hang", detail=None))
+    else:
+        ask(-1, "walk-all")
+    for c in (ro, fobj):
+        try:
+            if c is not None:
+                c.close()
+        except Exception:  # noqa
+            pass
+    return out
+
+
+def fu_prepare(case, workdir):
+    """Regenerates the archive of a case; returns everything fu_round needs + the single-thread baseline."""
+    rnd = random.Random(case["gen_seed"])
+    members, files, dirs, implied = fu_members(rnd, case["members"])
+    path, data = fu_write(case["fam"], members, workdir)
+    fnames = [u"/" + m[0] for m in members if m[1] == "f"]
+    # probes: the last member (its directory, the last implied directory), the first one, a random one
+    spots = [fnames[-1], fnames[0], fnames[len(fnames) // 2]] + [rnd.choice(fnames) for _ in range(3)]
+    probes = []
+    for i in range(max(case["threads"], len(FU_QUERIES))):
+        pf = spots[0] if i % 2 == 0 else spots[(i // 2) % len(spots)]
+        probes.append((pf, pf.rsplit(u"/", 1)[0], implied[-1] if i % 3 else implied[len(implied) // 2]))
+    # single-thread baseline: the oracle and the library agree on a quiet object; measures the build time
+    ro, fobj = fu_open(case["fam"], case["target"], path, data)
+    base = []
+    try:
+        t0 = time.time()
+        ro.listdir(u"/")
+        build = time.time() - t0
+        for i, q in enumerate(FU_QUERIES + ["walk-all"]):
+            try:
+                r = fu_query(ro, q, files, dirs, probes[i % len(probes)])
+            except Exception as e:  # noqa
+                r = ("exception", dict(error=common.exc_name(e), message=str(e)[:100]))
+            if r is not None:
+                base.append(dict(query=q, kind=r[0], detail=r[1]))
+    finally:
+        ro.close()
+        if fobj is not None:
+            fobj.close()
+    return dict(path=path, data=data, files=files, dirs=dirs, probes=probes, build=build, baseline=base,
+                n_members=len(members), n_implied=len(implied))
+
+
+def fu_run_case(case, workdir, prep=None):
+    """case: dict(fam, target, gen_seed, members, threads, queries, fraction).  -> (discrepancies, prep)"""
+    prep = prep or fu_prepare(case, workdir)
+    if prep["baseline"]:
+        return [dict(dict(b), thread="single", first_query=b["query"]) for b in prep["baseline"]], prep
+    n = case["threads"]
+    delays = [case["fraction"] * prep["build"] * k / max(1, n - 1) for k in range(n)]
+    out = fu_round(case["fam"], case["target"], prep["path"], prep["data"], case["queries"], delays, prep["files"],
+                   prep["dirs"], prep["probes"])
+    return out, prep
+
+
+def explore_first_use(rnd, thorough):
+    cases = []
+    for fam in ("zip", "tar"):
+        for target in FU_TARGETS:
+            for size in ([600, 1500, 3000] if thorough else [rnd.choice([500, 700, 900])]):
+                gen_seed = rnd.randint(0, 10 ** 6)
+                fracs = [0.0, 0.05, 0.1, 0.25, 0.5, 0.75, 1.0] if thorough else \
+                    [0.0, rnd.choice([0.05, 0.1, 0.25]), rnd.choice([0.4, 0.5, 0.75]), 1.0]
+                for fr in fracs:
+                    for rep in range(2 if thorough and size <= 600 else 1):
+                        qs = rnd.sample(FU_QUERIES, FU_THREADS)
+                        cases.append(dict(fam=fam, target=target, gen_seed=gen_seed, members=size, threads=FU_THREADS,
+                                          queries=qs, fraction=fr))
+    return cases
+
+
+def run_first_use(report, rnd, workdir, pending):
+    """Drives the cases; one violation per signature (the case with the fewest threads / smallest archive that still
+    shows it is looked for among the reruns)."""
+    thorough = report.tier == "thorough"
+    cases = explore_first_use(rnd, thorough)
+    preps = {}
+    hist = {}
+    failing = {}
+    t0 = time.time()
+    builds = []
+    for case in cases:
+        key = (case["fam"], case["target"], case["gen_seed"], case["members"])
+        out, prep = fu_run_case(case, workdir, preps.get(key))
+        preps = {key: prep}                 # keep only the current archive's data
+        builds.append(prep["build"])
+        for name, val in (("family", case["fam"]), ("target", case["target"]), ("start_spread", "%.2f build time" % case["fraction"]),
+                          ("members", str(prep["n_members"] // 250 * 250) + "+")):
+            hist.setdefault(name, {})
+            hist[name][val] = hist[name].get(val, 0) + 1
+        for q in case["queries"]:
+            hist.setdefault("first_query", {})
+            hist["first_query"][q] = hist["first_query"].get(q, 0) + 1
+        if out:
+            single = any(o["thread"] == "single" for o in out)
+            sig = fu_signature(case["fam"]) if not single else \
+                "first use %s: a single thread does not see the member list the archive was written with" % case["fam"]
+            failing.setdefault(sig, []).append((case, out))
+    sig_count = {}
+    for sig in sorted(failing):
+        sig_count[sig] = len(failing[sig])
+        entry = report.known_match(sig)
+        if entry is not None:
+            report.known_finding(entry)
+            continue
+        if sig in PENDING_FINDINGS:
+            pending[sig] = pending.get(sig, 0) + len(failing[sig])
+            continue
+        case, out = failing[sig][0]
+        # fewer threads still enough?
+        small, small_out = case, out
+        for n in (2, 3):
+            cand = dict(case, threads=n, queries=case["queries"][:n])
+            for _ in range(FU_RERUNS):
+                o2, _p = fu_run_case(cand, workdir)
+                if o2:
+                    small, small_out = cand, o2
+                    break
+            if small is cand:
+                break
+        kinds = {}
+        for c, o in failing[sig]:
+            for x in o:
+                kinds[x["kind"]] = kinds.get(x["kind"], 0) + 1
+        report.violation(dict(kind="concurrent-first-use", signature=sig, case=small, failures=small_out[:8],
+                              rounds_failing=len(failing[sig]), rounds_of_family=len([c for c in cases if c["fam"] == case["fam"]]),
+                              discrepancy_kinds=kinds,
+                              theorem="Props/C15.v (names_roundtrip: the tree read back is the tree written, for every reader)"))
+    return dict(first_use_rounds=len(cases), first_use_threads_per_round=FU_THREADS,
+                first_use_histograms=hist, first_use_failing_signatures=sig_count,
+                first_use_single_thread_build_s=dict(min=round(min(builds), 4), max=round(max(builds), 4)) if builds else {},
+                first_use_wall_s=round(time.time() - t0, 2),
+                first_use_rule="ReadZipFS / ReadTarFS x target {path, BytesIO, open file handle} x generated archive "
+                               "(quick 500-900 members, thorough 600/1500/3000; explicit and implied directories, depth "
+                               "<= 4, written with zipfile / tarfile) x start spread f in 0..1 of the measured "
+                               "single-thread index build time: a fresh object per round, %d threads released together, "
+                               "thread k delayed by k/(N-1)*f*build, each running a different first query drawn from %s "
+                               "with sys.setswitchinterval(1e-6) during the window, then walk-all by every thread and by "
+                               "the main thread; oracle = the member list the harness wrote (single-thread baseline on "
+                               "the same archive checked first)" % (FU_THREADS, FU_QUERIES))
+
+
 # --------------------------------------------------------------------------- exploration
 
 def explore(tier, seed):
@@ -2073,6 +2402,7 @@ def run(report):
                 report.violation(dict(kind="roundtrip", signature=sig, case=small, failures=fails[:6],
                                       theorem="Props/C15.v (names_roundtrip)"))
         cov = coverage_of(plan, failures, sig_count)
+        cov.update(run_first_use(report, random.Random(report.seed * 7919 + 1516), workdir, pending))
         cov["pending_findings_seen"] = pending
         for u in plan.get("kw_unmodelled", []):
             print("NOTE: C15 keyword parameter without a value table (not swept): %s" % u)
@@ -2104,6 +2434,17 @@ def replay(report, path):
         if case is None:
             print("nothing to replay:", d.get("what"))
             return 1
+        if d.get("kind") == "concurrent-first-use":
+            print("case:", case)
+            bad = 0
+            for i in range(FU_RERUNS):
+                out, prep = fu_run_case(case, workdir)
+                print("run %d (single-thread build %.4f s, %d members): %d discrepancies" % (
+                    i, prep["build"], prep["n_members"], len(out)))
+                for x in out[:6]:
+                    print("  ", x)
+                bad += bool(out)
+            return 1 if bad else 0
         if d.get("kind") == "crafted-archive":
             kinds, det = run_crafted(case, workdir)
             print("members:", case["members"], "format:", case["fmt"])
